@@ -458,6 +458,8 @@ def run(ctx):
     ctx.require("emit.file", 10)
     g = IRGen(ctx.rng, knobs(hostile_strings=not ctx.quick(), p_doc_states_default=0.15, p_hyphen_tokens=0.3))
     ga = IRGen(ctx.rng, knobs(hostile_strings=not ctx.quick(), argparse_domain=True, p_doc_states_default=0.15, p_hyphen_tokens=0.3))
+    # functions / methods: the signature default is the description's own default, whatever the prose says
+    gf = IRGen(ctx.rng, knobs(hostile_strings=not ctx.quick(), p_doc_states_default=0.3, p_stale_doc_default=0.6, p_hyphen_tokens=0.3))
     n = ctx.n(1500, 30000)
     spaces = {k: option_space(k) for k in KINDS}
     tmpdir = tempfile.mkdtemp(prefix="dtverif-c06-")
@@ -465,8 +467,9 @@ def run(ctx):
         for i in range(n):
             ir, feat = g.ir()
             ira, feata = ga.ir()
+            irf, featf = gf.ir()
             for kind in KINDS:
-                use_ir, use_feat = (ira, feata) if kind == "argparse" else (ir, feat)
+                use_ir, use_feat = (ira, feata) if kind == "argparse" else ((irf, featf) if kind in ("function", "method") and i % 2 else (ir, feat))
                 opts = dict(spaces[kind][(i * 5 + ctx.shard[0]) % len(spaces[kind])])
                 ctx.case(shape_signature(use_feat, (kind, tuple(sorted(opts.items())))),
                          nontrivial=use_feat["n_params"] > 0 or use_feat["has_return"] or use_feat["kwargs"],
